@@ -442,6 +442,8 @@ func runDeepCopy(c *core.Ctx) {
 				continue
 			}
 			assigned, aliased, elemCopied := false, false, false
+			condGuard := ""
+			rangeVars := map[string]string{}
 			ast.Inspect(fd.Body, func(n ast.Node) bool {
 				switch x := n.(type) {
 				case *ast.AssignStmt:
@@ -451,6 +453,13 @@ func runDeepCopy(c *core.Ctx) {
 								continue
 							}
 							assigned = true
+							// the re-allocation may be skipped only when the original's field is nil (nothing to share): a test
+							// of its length also skips an empty list that still owns a backing array, or an empty map
+							for _, g := range enclosingConds(fd.Body, x) {
+								if !isNilGuardOf(g.cond, recvName+"."+f.Name(), g.inElse) {
+									condGuard = exprString(g.cond)
+								}
+							}
 							if li < len(x.Rhs) && selPath(x.Rhs[li]) == recvName+"."+f.Name() {
 								aliased = true
 							}
@@ -489,6 +498,16 @@ func runDeepCopy(c *core.Ctx) {
 						if selPath(base) == recvName+"."+f.Name() {
 							elemCopied = true
 						}
+						// d.Copy() where d is the value variable of `for _, d := range recv.F`
+						if id, isID := se.X.(*ast.Ident); isID && rangeVars[id.Name] == recvName+"."+f.Name() {
+							elemCopied = true
+						}
+					}
+				case *ast.RangeStmt:
+					if v, isID := x.Value.(*ast.Ident); isID {
+						if sp := selPath(x.X); sp != "" {
+							rangeVars[v.Name] = sp
+						}
 					}
 				}
 				return true
@@ -497,6 +516,8 @@ func runDeepCopy(c *core.Ctx) {
 			switch {
 			case !assigned || aliased:
 				c.Fail(key, fd.Pos(), "%s field %s of type %s is not re-allocated by %s.Copy: the copy shares it with the original", kind, f.Name(), c.P.TypeName(f.Type()), tn)
+			case condGuard != "":
+				c.Fail(key, fd.Pos(), "%s field %s of type %s is re-allocated by %s.Copy only under `%s`, which is not a nil test of the original's field: on the other edge the copy keeps the original's %s (an emptied list still owns its backing array, an empty map is still a map) and a later insertion into one shows up in the other", kind, f.Name(), c.P.TypeName(f.Type()), tn, condGuard, kind)
 			default:
 				needElem := false
 				switch u := f.Type().Underlying().(type) {
@@ -513,6 +534,75 @@ func runDeepCopy(c *core.Ctx) {
 			}
 		}
 	}
+}
+
+type condGuardT struct {
+	cond   ast.Expr
+	inElse bool
+}
+
+// enclosingConds: the conditions of the if statements of body that enclose target (with the branch it sits in).
+func enclosingConds(body *ast.BlockStmt, target ast.Node) []condGuardT {
+	var out []condGuardT
+	var stack []ast.Node
+	found := false
+	ast.Inspect(body, func(n ast.Node) bool {
+		if found {
+			return false
+		}
+		if n == nil {
+			stack = stack[:len(stack)-1]
+			return true
+		}
+		stack = append(stack, n)
+		if n == target {
+			found = true
+			for i := 0; i+1 < len(stack); i++ {
+				is, ok := stack[i].(*ast.IfStmt)
+				if !ok {
+					continue
+				}
+				switch stack[i+1] {
+				case ast.Node(is.Body):
+					out = append(out, condGuardT{is.Cond, false})
+				case is.Else:
+					out = append(out, condGuardT{is.Cond, true})
+				}
+			}
+			return false
+		}
+		return true
+	})
+	return out
+}
+
+// isNilGuardOf: in the given branch of `if cond`, the only thing known is that path (a selector chain) is not nil.
+func isNilGuardOf(cond ast.Expr, path string, inElse bool) bool {
+	for {
+		p, ok := cond.(*ast.ParenExpr)
+		if !ok {
+			break
+		}
+		cond = p.X
+	}
+	be, ok := cond.(*ast.BinaryExpr)
+	if !ok {
+		return false
+	}
+	isNil := func(e ast.Expr) bool { id, ok := e.(*ast.Ident); return ok && id.Name == "nil" }
+	var other ast.Expr
+	switch {
+	case isNil(be.Y):
+		other = be.X
+	case isNil(be.X):
+		other = be.Y
+	default:
+		return false
+	}
+	if selPath(other) != path {
+		return false
+	}
+	return (be.Op == token.NEQ && !inElse) || (be.Op == token.EQL && inElse)
 }
 
 // runReserved: names created under a repository directory vs. the repository grammar.
